@@ -1,10 +1,10 @@
 package c14
 
 import (
-	"math"
 	"bufio"
 	"bytes"
 	"fmt"
+	"math"
 
 	"github.com/tuneinsight/lattigo/v6/core/rlwe"
 	"github.com/tuneinsight/lattigo/v6/multiparty"
